@@ -15,6 +15,9 @@ def _work(a):
     out = []
     try:
         tu = cc.unit_for(t, on, "B")
+    except cc.NotCovered as e:
+        lg = codec.QueryLog(); lg.notes.append(f"NOT COVERED [{on}]: {e}")
+        return [(ti, on, "not covered", lg, None, 0.0)]
     except Exception as e:  # build problem: inconclusive, never a pass
         lg = codec.QueryLog(); lg.unknown.append(f"build failed: {str(e)[-300:]}")
         return [(ti, on, "build", lg, None, 0.0)]
@@ -34,7 +37,7 @@ _TYPES = []
 
 def main(tier: str) -> int:
     rep = common.Report("C01", tier, "other")
-    optnames = ["default", "little+asserts"] if tier == "quick" else list(cc.OPTSETS)
+    optnames = ["default", "little+asserts", "cpp14"] if tier == "quick" else list(cc.OPTSETS)
     with common.scratch("nvc01_") as d:
         types, feats = cc.prepare(tier, d, optnames)
         _TYPES[:] = types
@@ -51,7 +54,8 @@ def main(tier: str) -> int:
                        "types outside the corpus, big-endian hosts, buffer sizes other than the two stated are outside this check (C05 covers smaller buffers)",
                        "clang 14 -O1 IR of x86-64 is the code that is executed symbolically; pydsdl 1.x describes the types",
                        "float16: the relation asserted is C14's (faithful rounding, saturation to +-65504 for saturated fields), not RNE"]
-    rep.not_covered = ["C++ target (staged)", "Python target (staged, E4)", "types not in the corpus"]
+    rep.not_covered = ["C++: types with bit arrays (std::bitset / std::vector<bool>); C++17 std::variant and pmr/cetl flavours only in the thorough tier",
+                       "Python target (E4 executor not landed)", "types not in the corpus"]
     rep.extra["explanation"] = ("llsym symbolic execution of each generated serializer; per path and per value shape compatible with the path one z3 "
                                 "query: NOT(rc/size/bytes match the reference model of DSDL serialization) must be unsat; invalid values must be rejected")
     rep.extra["trusted_base"] = ["clang 14", "z3 5.1", "llsym interpreter", "llsym/dsdlspec.py reference model", "pydsdl"]
